@@ -30,7 +30,7 @@ CLAIMS = {
         "sibling-implementation diff and structural rules on the three selection primitives",
         "Decides: rand_argmax/rand_argmin are identical up to nanmax<->nanmin and break ties by argmax of noise times the equality mask with the NaN-aware optimum; "
         "simple_batch clips to the number of non-NaN entries before both modes, snapshots the row before masking the winner, masks depend on earlier picks; "
-        "proportional mode zeroes NaN probabilities, draws without replacement and masks earlier picks per row. Tie fairness and optimality as numbers are not decided.",
+        "proportional mode zeroes NaN probabilities, draws without replacement and masks earlier picks per row; every returned index comes from a selection primitive (never from sorting / arg-reducing the NaN-marked utilities); a flat argmax result over an n-d array is unravelled under a guard on the result / the value of axis. Tie fairness and optimality as numbers are not decided.",
         "numpy's nanmax/nanmin/argmax semantics are trusted.",
         "DESIGN.md section 3 C18",
     ),
@@ -56,7 +56,7 @@ CLAIMS = {
         "path-sensitive definite assignment over the 3x3 argument split, boolean-by-construction typing of the availability mask, loop dependence/order rules, syntactic termination classes for while loops",
         "Decides: both base-class helpers bind their results on every feasible candidates x annotators combination and clip the batch size; every definition of the availability mask is boolean by construction; "
         "unavailable pairs are NaN before combination and every chosen pair is masked in all later steps before the next selection; every while loop of the package is in a syntactically terminating class; "
-        "sample indices are translated through the mapping and the annotator column is not; every scatter/index translation through the mapping runs on exactly the candidates x annotators cases in which _transform_cand_annot returns a mapping (3-valued evaluation of the guards over all 9 cases); the clip bound counts pairs as rows x annotators and index arrays are de-duplicated. That n_annotators_per_sample is honoured numerically is not decided.",
+        "sample indices are translated through the mapping and the annotator column is not; every scatter/index translation through the mapping runs on exactly the candidates x annotators cases in which _transform_cand_annot returns a mapping (3-valued evaluation of the guards over all 9 cases); the clip bound counts pairs as rows x annotators and index arrays are de-duplicated; the annotator-assignment step iterates a bounded loop and caps every per-sample count by the available annotators. That n_annotators_per_sample is honoured numerically is not decided.",
         "R7.4 is a proof obligation over two recognised loop classes, not a proof of divergence.",
         "DESIGN.md section 3 C07",
     ),
@@ -86,21 +86,21 @@ CLAIMS = {
     "C15": (
         "structural rules on predict/sample_y, MRO resolution, definite assignment of fallback attributes",
         "Decides: predict binds one predict_target_distribution result and returns its mean/std/entropy under the matching flags; every concrete probabilistic regressor resolves predict to that implementation; "
-        "sample_y draws (n_samples, len(X)) and transposes, forwarding random_state; the NotFittedError fallbacks are built (as float arrays) from _label_mean/_label_std which _fit defines on all paths with defaults 0/1 from the labeled rows; the seed is never judged by truthiness; the all-zero-weights guard of the kernel regressors reads the labeled weights.",
+        "sample_y draws (n_samples, len(X)) and transposes, forwarding random_state; the NotFittedError fallbacks are built (as float arrays) from _label_mean/_label_std which _fit defines on all paths with defaults 0/1 from the labeled rows; the seed is never judged by truthiness; the all-zero-weights guard of the kernel regressors reads the labeled weights; no identity-less reduction (min/max/arg*) touches a per-sample array outside an emptiness guard in the regressor validators / fits; the try around the wrapped fit catches Exception; a declared **kwargs is forwarded (sample / sample_y hand on the caller's random_state).",
         "scipy.stats frozen distributions are coherent; numbers are not decided.",
         "DESIGN.md section 3 C15",
     ),
     "C16": (
         "structural complement/dispatch/symmetry rules on the label predicates and the encoder",
         "Decides: is_labeled is the inversion of is_unlabeled with both arguments forwarded; the index helpers are argwhere of the respective predicate; is_unlabeled has exactly the isnan path (under a float-NaN sentinel test) and the cast-equality path, "
-        "both dominated by the sentinel checks; every return is element-for-element shaped like y (never sized by len(y)); the common dtype of labels and sentinel is built the same way at its three sites; transform/inverse_transform partition by m and ~m with swapped sentinel pairs. The round trip as values and numpy casting are not decided.",
+        "both dominated by the sentinel checks; every return is element-for-element shaped like y (never sized by len(y)); the common dtype of labels and sentinel is built the same way at its three sites; transform/inverse_transform partition by m and ~m with swapped sentinel pairs; every check_array on labels in the encoder accepts empty / non-finite / any-dtype input; every attribute ExtLabelEncoder.fit stores it stores on every returning path. The round trip as values and numpy casting are not decided.",
         "numpy comparison/casting semantics are trusted.",
         "DESIGN.md section 3 C16",
     ),
     "C17": (
         "path-sensitive must-write analysis with value-set facts; dominance of the zeroing store; structural rules on majority_vote",
         "Decides: ext_confusion_matrix stores its output slice on every feasible path of the per-annotator loop (value set of `normalize` from the validating test); "
-        "compute_vote_vectors zeroes the bincount weights at the missing-label mask by the last dominating store and pairs positions and weights in C order; the utilities never write into their arguments; the rows of annotator a are filtered by the mask of its own column; majority_vote fills with the sentinel, writes only under the "
+        "compute_vote_vectors zeroes the bincount weights at the missing-label mask and at NaN confidences (and at nothing else: infinite weights stay) by a dominating store and pairs positions and weights in C order; the missing mask itself (is_unlabeled) dispatches NaN test vs. equality on the sentinel; the utilities never write into their arguments; the rows of annotator a are filtered by the mask of its own column; majority_vote fills with the sentinel, writes only under the "
         "has-a-label mask and decodes rand_argmax over the vote matrix. Equality with the counting specification as numbers is not decided.",
         "np.bincount and sklearn's confusion_matrix are trusted to count.",
         "DESIGN.md section 3 C17",
@@ -149,7 +149,7 @@ CLAIMS = {
     "C19": (
         "delegation-name agreement, co-assignment groups via must/may attribute-store path analysis, copy discipline, sibling diff",
         "Decides: predict/predict_proba/predict_freq delegate to the method of their own name on every path; the current and base training triples are stored all-or-none on every path; base state is always copied; "
-        "the three predict* siblings are identical up to the delegated name with the NaN guard dominating the precomputed prediction; the kernel comes from the wrapped classifier's metric; the twin classifier is a clone (or rebuilt with every constructor parameter); None-guards test the value they pass; the unique-sample selector works on index values. Equality with a retrained reference is not decided.",
+        "the three predict* siblings are identical up to the delegated name with the NaN guard dominating the precomputed prediction; the kernel comes from the wrapped classifier's metric; the twin classifier is a clone (or rebuilt with every constructor parameter); None-guards test the value they pass; the unique-sample selector works on index values; the emulated refit forwards indices, labels and weights of the stored group; the package's classifiers refit history-free (no constructor parameter written, no fitted attribute read before it is stored, stores on every path - shared with C13). Equality with a retrained reference is not decided.",
         "-",
         "DESIGN.md section 3 C19",
     ),
@@ -157,7 +157,7 @@ CLAIMS = {
         "structural/dominance rules on the three wrappers plus the shared loop and NaN-discipline rules",
         "Decides: the parallel wrapper queries with batch_size=1/return_utilities=True, concatenates row 0 of the outputs in chunk order and selects by simple_batch; the sub-sampling wrapper draws without replacement, "
         "writes -inf before the subset's utilities and translates indices on the row-removal and feature-row paths; the single-annotator wrapper forces the inner picks to the top before the ordinal rank transform, "
-        "masks unavailable pairs before adding, masks chosen pairs in all later steps, and never adds the caller's raw A_perf (untransformed) to the integer ranks. Numerical equality of wrapped and unwrapped utilities is not decided.",
+        "masks unavailable pairs before adding, masks chosen pairs in all later steps, and never adds the caller's raw A_perf (untransformed) to the integer ranks; the per-sample annotator count is capped by the available annotators; the wrappers partition labels with their own sentinel. Numerical equality of wrapped and unwrapped utilities is not decided.",
         "joblib.Parallel returns results in submission order.",
         "DESIGN.md section 3 C20",
     ),
